@@ -315,6 +315,7 @@ func newYW(s *core.Sim, first, age uint64, space time.Duration) *YW {
 	genesis := time.Now().Add(-time.Duration(age-first) * space)
 	w.Ch = simhdr.NewChain("sim-chain", first, genesis, space)
 	w.Disk = simdisk.New("y0", s)
+	w.Disk.ErrWraps = core.Pick(s.Tape, "disk-error-kind", []error{nil, nil, context.DeadlineExceeded, context.Canceled})
 	w.G = &SimGetter{S: s, Ch: w.Ch, NetHead: w.NetHead, Cost: time.Millisecond}
 	w.Sub = &SimSub{}
 	return w
@@ -373,7 +374,7 @@ func (w *YW) OpenStore(p store.Parameters) error {
 		}
 		w.St, err = store.NewStore[*H](w.Disk.Flavour(w.Flav), sopts...)
 		if err == nil {
-			err = w.St.Start(context.Background())
+			err = startStore(w.St)
 		}
 	})
 	if !fin {
